@@ -326,9 +326,11 @@ func btoi(b bool) int {
 
 // ---------------------------------------------------------------- C13
 
-// pendingRewards recomputes Σ credited-but-unclaimed per reward denom from the stores.
-func pendingRewards(s *Snapshot) map[string]sdkmath.LegacyDec {
-	acc := map[string]sdkmath.LegacyDec{} // pool|denom -> acc per share
+// userPendingRewards recomputes credited-but-unclaimed per (holder, pool, reward denom) from the stores:
+// RewardPending + (acc*committed - RewardDebt)/1e18, the formula ClaimRewards itself applies.
+// Also returns committed reward-bearing shares per "holder|pool" and acc-per-share per "pool|denom".
+func userPendingRewards(s *Snapshot) (pend map[string]sdkmath.LegacyDec, shares map[string]sdkmath.Int, acc map[string]sdkmath.LegacyDec) {
+	acc = map[string]sdkmath.LegacyDec{} // pool|denom -> acc per share
 	denomsOf := map[uint64]map[string]bool{}
 	for _, pr := range s.MCPoolRewards {
 		acc[fmt.Sprintf("%d|%s", pr.PoolId, pr.RewardDenom)] = pr.PoolAccRewardPerShare
@@ -345,16 +347,9 @@ func pendingRewards(s *Snapshot) map[string]sdkmath.LegacyDec {
 		}
 		denomsOf[u.PoolId][u.RewardDenom] = true
 	}
-	total := map[string]sdkmath.LegacyDec{}
-	addTo := func(d string, v sdkmath.LegacyDec) {
-		if cur, ok := total[d]; ok {
-			total[d] = cur.Add(v)
-		} else {
-			total[d] = v
-		}
-	}
+	pend = map[string]sdkmath.LegacyDec{}
+	shares = map[string]sdkmath.Int{}
 	one := ammtypes.OneShare
-	done := map[string]bool{}
 	for _, c := range s.Commitments {
 		for _, ct := range c.CommittedTokens {
 			var poolID uint64
@@ -369,28 +364,94 @@ func pendingRewards(s *Snapshot) map[string]sdkmath.LegacyDec {
 			} else {
 				continue
 			}
+			shares[fmt.Sprintf("%s|%d", c.Creator, poolID)] = ct.Amount
 			for d := range denomsOf[poolID] {
 				k := fmt.Sprintf("%s|%d|%s", c.Creator, poolID, d)
-				done[k] = true
 				a, ok := acc[fmt.Sprintf("%d|%s", poolID, d)]
 				if !ok {
 					a = sdkmath.LegacyZeroDec()
 				}
-				debt, pend := sdkmath.LegacyZeroDec(), sdkmath.LegacyZeroDec()
+				debt, pnd := sdkmath.LegacyZeroDec(), sdkmath.LegacyZeroDec()
 				if u, ok := info[k]; ok {
-					debt, pend = u.RewardDebt, u.RewardPending
+					debt, pnd = u.RewardDebt, u.RewardPending
 				}
-				addTo(d, pend.Add(a.MulInt(ct.Amount).Sub(debt).QuoInt(one)))
+				pend[k] = pnd.Add(a.MulInt(ct.Amount).Sub(debt).QuoInt(one))
 			}
 		}
 	}
 	for k, u := range info {
-		if !done[k] {
+		if _, done := pend[k]; !done {
 			// user has no committed shares left: pending + (0 - debt)/1e18
-			addTo(u.RewardDenom, u.RewardPending.Sub(u.RewardDebt.QuoInt(one)))
+			pend[k] = u.RewardPending.Sub(u.RewardDebt.QuoInt(one))
+		}
+	}
+	return pend, shares, acc
+}
+
+// pendingRewards: Σ credited-but-unclaimed per reward denom.
+func pendingRewards(s *Snapshot) map[string]sdkmath.LegacyDec {
+	pend, _, _ := userPendingRewards(s)
+	total := map[string]sdkmath.LegacyDec{}
+	for _, k := range sortedKeys(pend) {
+		d := k[strings.LastIndex(k, "|")+1:]
+		if cur, ok := total[d]; ok {
+			total[d] = cur.Add(pend[k])
+		} else {
+			total[d] = pend[k]
 		}
 	}
 	return total
+}
+
+// c13Accrual: "rewards accrue only for the blocks during which shares were committed; committing just
+// before a distribution earns nothing from earlier blocks". The accumulator moves only in the
+// end-blocker, after every tx of the block, so for every (holder, pool, denom) – bank-backed or not –
+//
+//	credited(end of N) <= credited(end of N-1) + (acc_N - acc_{N-1}) * shares(end of N) / 1e18
+//
+// (claims only lower the left side; deposits and withdrawals checkpoint and leave it unchanged).
+func c13Accrual(h *History, blk *BlockRecord) []Violation {
+	pendCur, sharesCur, accCur := userPendingRewards(h.Cur)
+	defer func() { h.Ext["c13-user"] = [3]interface{}{pendCur, sharesCur, accCur} }()
+	prev, ok := h.Ext["c13-user"].([3]interface{})
+	if !ok {
+		return nil
+	}
+	pendPrev, accPrev := prev[0].(map[string]sdkmath.LegacyDec), prev[2].(map[string]sdkmath.LegacyDec)
+	var out []Violation
+	eps := sdkmath.LegacyNewDecWithPrec(1, 9)
+	one := ammtypes.OneShare
+	for _, k := range sortedKeys(pendCur) {
+		parts := strings.SplitN(k, "|", 3)
+		holder, pool, denom := parts[0], parts[1], parts[2]
+		before, ok := pendPrev[k]
+		if !ok {
+			before = sdkmath.LegacyZeroDec()
+		}
+		dAcc := sdkmath.LegacyZeroDec()
+		if a, ok := accCur[pool+"|"+denom]; ok {
+			dAcc = a
+		}
+		if a, ok := accPrev[pool+"|"+denom]; ok {
+			dAcc = dAcc.Sub(a)
+		}
+		sh, ok := sharesCur[holder+"|"+pool]
+		if !ok {
+			sh = sdkmath.ZeroInt()
+		}
+		earned := dAcc.MulInt(sh).QuoInt(one)
+		if earned.IsPositive() {
+			h.Labels["c13-accrual-checked"]++
+			if _, had := pendPrev[k]; !had || before.IsZero() {
+				h.Labels["c13-accrual-newcomer"]++
+			}
+		}
+		if pendCur[k].GT(before.Add(earned).Add(eps)) {
+			out = append(out, Violation{Sig: "C13/credited-more-than-accrued", Detail: fmt.Sprintf("%s in pool %s, reward %s: credited-unclaimed went %s -> %s in one block, but with %s committed shares at the distribution and acc-per-share moving by %s only %s accrued (height %d; %s)",
+				h.W.nameOf(holder), pool, denom, before, pendCur[k], sh, dAcc, earned, h.Cur.Height, blockSummary(blk))})
+		}
+	}
+	return out
 }
 
 func CheckC13(h *History, blk *BlockRecord) []Violation {
@@ -452,6 +513,7 @@ func CheckC13(h *History, blk *BlockRecord) []Violation {
 		}
 	}
 	h.Ext["c13-surplus"] = cur
+	out = append(out, c13Accrual(h, blk)...)
 	return out
 }
 
